@@ -18,6 +18,17 @@ type Field struct {
 	N string `json:"n"`
 	V string `json:"v"`
 	S bool   `json:"s,omitempty"`
+	// R = [start, len]: the value is V followed by the arithmetic run (start+i) mod 251 (kept out of V so
+	// that the JSON replay file stays valid UTF-8)
+	R []int `json:"r,omitempty"`
+}
+
+// Val is the field value on the wire.
+func (f Field) Val() string {
+	if len(f.R) == 2 {
+		return f.V + string(runBytes(f.R[0], f.R[1]))
+	}
+	return f.V
 }
 
 // Prio is http2.PriorityParam.
